@@ -46,6 +46,12 @@ ZERO_COPY = [
 ]
 
 
+def uncast_ptr(e):
+    while isinstance(e, tuple) and e and e[0] == "cast" and e[1] in ("PtrToPtr", "IntToInt"):
+        e = e[2]
+    return e
+
+
 def run(facts):
     res = Result("A12", "no byte-buffer allocation / byte copy is reachable from a zero-copy operation except on verified exempt edges "
                         "(into_boxed_slice under len == cap; copies in into_mut only when the uniqueness test failed or the family is immutable; "
@@ -230,6 +236,87 @@ def run(facts):
             res.ok(z, root.loc(), "no byte alloc/copy reachable through %d functions%s" % (len(seen), ("; exempt: " + "; ".join(sorted(set(exempted)))) if exempted else ""),
                    nontrivial=bool(exempted))
     res.floor("zero_copy_ops", n, 18)
+    # clone: the (ptr, len) given to the slot function are the (ptr, len) of every handle it can return, on every
+    # path and through every helper (interprocedural role propagation: which parameters end up as a handle's ptr / len)
+    role_memo = {}
+
+    def view_params(b, stack=()):
+        """(set of params of b that become a handle's ptr, set that become its len, problems)"""
+        if b.did in role_memo:
+            return role_memo[b.did]
+        if b.did in stack:
+            return (set(), set(), [])
+        pp, lp, probs = set(), set(), []
+        eb = ExprBuilder(b, facts, inline=False)
+        for bi, blk in enumerate(b.blocks):
+            if blk["cleanup"]:
+                continue
+            for si, s_ in enumerate(blk["stmts"]):
+                if s_["k"] == "assign" and s_["rv"]["k"] == "agg" and s_["rv"].get("adt") in roles.handle_types(facts):
+                    f = dict(zip(s_["rv"]["fields"], s_["rv"]["ops"]))
+                    pe = uncast_ptr(canon(eb.operand(f["ptr"], (bi, si))))
+                    le_ = canon(eb.operand(f["len"], (bi, si)))
+                    if pe[0] == "param":
+                        pp.add(pe[1])
+                    elif not (pe[0] == "call" and pe[1].endswith("as_ptr")):
+                        probs.append("%s builds a handle whose ptr is %s" % (b.id, fmt_expr(pe)[:60]))
+                    if le_[0] == "param":
+                        lp.add(le_[1])
+                    elif not (le_[0] == "call" and le_[1].endswith("::len")):
+                        probs.append("%s builds a handle whose len is %s" % (b.id, fmt_expr(le_)[:60]))
+            t = blk["term"]
+            if t["k"] != "call":
+                continue
+            fn = callee(t)
+            if fn is None:
+                continue
+            r = fn.get("res") or fn
+            if not r.get("local") or r.get("did") is None:
+                continue
+            cb = facts.by_did.get(r["did"])
+            if cb is None or cb.j.get("output") not in roles.handle_types(facts):
+                # from_static(slice::from_raw_parts(ptr, len)) etc.: handled through as_ptr/len forms above
+                if cb is None or cb.id.rsplit("::", 1)[-1] in ("abort",):
+                    continue
+            cpp, clp, cprobs = view_params(cb, stack + (b.did,))
+            probs.extend(cprobs)
+            loc = (bi, len(blk["stmts"]))
+            for (params, acc, what) in ((cpp, pp, "ptr"), (clp, lp, "len")):
+                for i in params:
+                    if i - 1 < len(t["args"]):
+                        a = uncast_ptr(canon(eb.operand(t["args"][i - 1], loc)))
+                        if a[0] == "param":
+                            acc.add(a[1])
+                        elif what == "ptr" and a[0] == "call" and a[1] in ("core::slice::from_raw_parts",):
+                            pass
+                        elif a[0] == "call" and a[1] == "core::slice::from_raw_parts":
+                            pass
+                        else:
+                            # a (ptr,len)-slice built from the view parameters is fine (static_clone)
+                            inner = [x for x in walk(a) if x[0] == "param"]
+                            if a[0] == "call" and a[1].startswith("core::slice::from_raw_parts"):
+                                continue
+                            probs.append("%s passes %s as the %s of the handle built by %s" % (b.id.rsplit("::", 1)[-1], fmt_expr(a)[:50], what, cb.id.rsplit("::", 1)[-1]))
+        role_memo[b.did] = (pp, lp, probs)
+        return role_memo[b.did]
+
+    for name, slots in sorted(vts.items()):
+        s = slots.get("clone")
+        if not s:
+            continue
+        d = s.get("did") if s.get("did") is not None else (s.get("res") or {}).get("did")
+        cb = facts.by_did[d]
+        pp, lp, probs = view_params(cb)
+        key = "%s.clone|view roles" % name
+        # slot signature: fn(data, ptr, len)
+        if pp - {2}:
+            probs.append("parameter(s) %s of the slot function end up as a handle's ptr (only `ptr` may)" % sorted(pp - {2}))
+        if lp - {3}:
+            probs.append("parameter(s) %s of the slot function end up as a handle's len (only `len` may)" % sorted(lp - {3}))
+        if probs:
+            res.bad(key, cb.loc(), "; ".join(sorted(set(probs))[:3]))
+        else:
+            res.ok(key, cb.loc(), "on every path and through every helper the returned handle's (ptr, len) are the slot's (ptr, len)", nontrivial=True)
     # clone slot fns return their (ptr, len) parameters
     for name, slots in sorted(vts.items()):
         s = slots.get("clone")
